@@ -105,6 +105,11 @@ def generate(seed, tier):
                 ops.append(["pickle", o, rw.randrange(0, 6)]); nobj += 1
         elif r < 0.82:
             ops.append(["df", o])
+        elif r < 0.835:
+            # fault injection: the NumPy call that allocates the attribute's value fails once (MemoryError)
+            ops.append(["attr_fault", o, rw.choice(RM.DERIVED), rw.choice(["sqrt", "abs", "divide", "conj", "angle", "unwrap", "zeros_like", "multiply"])])
+        elif r < 0.84:
+            ops.append(["churn", o, rw.choice(interp), rw.randrange(2 ** 31)])      # short-lived results queried and dropped in between
         elif r < 0.845:
             # the whole grid, shifted by a few ppm (another record whose clock is slightly off), or a scaled copy of it
             ops.append(["meas_grid", o, rw.choice(interp), rw.choice([2e-6, -2e-6, 1e-7, -3e-9, 1e-3, 0.0]), rw.random() < 0.3])
@@ -286,6 +291,44 @@ def execute(sc, out):
                 out.count("export_single_bin" if single else ("export_uniform_K" if uniform_k else "export_ragged"))
                 if single or uniform_k:
                     out.nontrivial = True
+            elif kind == "attr_fault":
+                from dsim import parfor as _pf
+
+                name, fn = op[2], op[3]
+                if _pf.LIBRARY_NUMPY is not None:
+                    _pf.LIBRARY_NUMPY.arm_fault(fn, 1)
+                    try:
+                        getattr(o, name)
+                    except MemoryError:
+                        out.count("attr_fault_fired")
+                    finally:
+                        _pf.LIBRARY_NUMPY.disarm_faults()
+                    # whatever happened, the attribute must now evaluate to its proper value
+                    v = getattr(o, name)
+                    if truth.get(name) is not RAISED and name != "compute_t" and not _eq(v, truth[name]):
+                        out.violate("attr_wrong_after_failed_evaluation", name, f"object #{oi}: after an injected MemoryError in numpy.{fn} during its evaluation, {name} is {type(v).__name__} instead of its value")
+            elif kind == "churn":
+                import gc
+
+                which, seed_ = op[2], op[3]
+                for rep in range(3):
+                    spec2 = dict(sc["data"], rng=seed_ + rep, recipe="noise")
+                    try:
+                        tmp = SC.build_analyzer(SC.make_record(spec2), dict(cfg, band=None)).compute()
+                    except Exception:
+                        break
+                    tab = np.asarray(getattr(tmp, which))
+                    ft = np.asarray(tmp.f)
+                    if tab.dtype != object and len(ft) >= 2 and np.all(np.diff(ft) > 0) and np.all(np.isfinite(tab.real)):
+                        fq = np.array([ft[0], 0.5 * (ft[0] + ft[1]), ft[-1]])
+                        got = np.asarray(tmp.get_measurement(fq, which))
+                        exp = _lin_interp(ft, tab, fq)
+                        scale = float(np.max(np.abs(tab))) or 1.0
+                        if got.shape != exp.shape or not np.all(np.abs(got - exp) <= 1e-9 * scale):
+                            out.violate("interpolation", f"{which}:short_lived_result", f"result #{rep + 1} of a sequence of short-lived results returned values that are not its own table's (stale state keyed by object identity?)")
+                    del tmp
+                    gc.collect()
+                out.count("short_lived_results_churned")
             elif kind == "meas_grid":
                 _check_meas_grid(o, op, truth, nf, out)
                 if single or uniform_k:
